@@ -319,6 +319,7 @@ def compare(exp, act, free_kinds=False, dtype_any=None, check_attrs=True, check_
         return "labels: expected %s got %s" % (exp["labs"], act["labs"])
     if not free_kinds:
         for ek, ak, labs in zip(exp["kinds"], act["kinds"], act["labs"]):
+            ek = "i" if ek == "u" else ek          # unsigned labels project to the integer kind
             if len(labs) and ek != ak:
                 return "label kind: expected %s got %s" % (exp["kinds"], act["kinds"])
     if "cells" in exp and "cells" in act and exp["cells"] != act["cells"]:
